@@ -620,6 +620,8 @@ def sym_method(ctx, obj, name):
             raise Unsupported('index on symbolic sequence')
         if name == 'index':
             return _M(index)
+    if isinstance(obj, SU):
+        py_raise(AttributeError("opaque object has no attribute '%s'" % name))
     raise Unsupported('attribute %s on %s' % (name, type(obj).__name__))
 
 
